@@ -132,6 +132,11 @@ static mbstate_t state;
 // returns the number of bytes in c
 // returns -1 if c is not a valid utf8 character
 size_t utf8_char_to_string(char *s, int32_t c) {
+	// only Unicode scalar values can be encoded, glibc's c32rtomb also accepts
+	// values up to 0x7FFFFFFF and writes up to 6 bytes for them (s only has room for 5)
+	if (c < 0 || c > 0x10FFFF) {
+		return (size_t)-1;
+	}
 	size_t num_bytes = c32rtomb(s, c, &state);
 	if (num_bytes != (size_t)-1) {
 		s[num_bytes] = '\0';
